@@ -4,8 +4,8 @@
    Spec: Spec/PointShapeSpec.v (point sets in the real plane), Spec/Winding.v. *)
 From Coq Require Import ZArith List Bool Arith Reals.
 From SP Require Import Model.Num Model.Arrow Model.PointKernels Model.PointShape
-                       Spec.PointShapeSpec
-                       Proofs.PointShapeSeg Proofs.PointShapeLine Proofs.PointShapeForms.
+                       Spec.PointShapeSpec Spec.Winding
+                       Proofs.PointShapeSeg Proofs.PointShapeLine Proofs.PointShapeForms Proofs.WindingRefine Proofs.WindingLaws Proofs.WindingRect.
 Import ListNotations.
 
 (* ---- (a) point and multipoint: equality with some vertex ---- *)
@@ -86,6 +86,89 @@ Theorem C02_missing_false : forall a s r i,
 Proof. exact missing_false. Qed.
 Print Assumptions C02_missing_false.
 
+(* ---- (d) polygons: the code's edge rule is the declarative half-open ray-crossing rule ---- *)
+
+Theorem C02_pip_edge_refines : forall x y (A B : pt),
+  pip_edge x y (A, B) = wn_edge (IZR x, IZR y) (inj A) (inj B).
+Proof. exact pip_edge_refines. Qed.
+Print Assumptions C02_pip_edge_refines.
+
+(* for every ring list (no validity assumption): the test answers "winding number <> 0" *)
+Theorem C02_pip_refines_wn : forall x y values offs,
+  point_intersects_polygon x y values offs =
+  negb (wn (IZR x, IZR y) (map ring_of (rings_of values offs)) =? 0)%Z.
+Proof. exact pip_refines_wn. Qed.
+Print Assumptions C02_pip_refines_wn.
+
+(* ---- (e) laws of the winding number (no Jordan curve theorem) ---- *)
+
+(* exact even when P lies on the edge *)
+Theorem C02_wn_edge_antisym : forall P A B, (wn_edge P A B + wn_edge P B A = 0)%Z.
+Proof. exact wn_edge_antisym. Qed.
+Print Assumptions C02_wn_edge_antisym.
+
+(* "either way round": reversing every ring negates the number, so the answer is unchanged *)
+Theorem C02_wn_rev : forall P rings, wn P (map (@rev rpt) rings) = (- wn P rings)%Z.
+Proof. exact wn_rev. Qed.
+Print Assumptions C02_wn_rev.
+
+(* rings add: shell + holes, parts of a multipolygon *)
+Theorem C02_wn_app : forall P r1 r2, wn P (r1 ++ r2) = (wn P r1 + wn P r2)%Z.
+Proof. exact wn_app. Qed.
+Print Assumptions C02_wn_app.
+
+Theorem C02_wn_translate : forall d P rings,
+  wn (tr d P) (map (map (tr d)) rings) = wn P rings.
+Proof. exact wn_translate. Qed.
+Print Assumptions C02_wn_translate.
+
+(* closed rings, P strictly left of / right of / below / above every vertex *)
+Theorem C02_wn_outside_bbox : forall P rings,
+  Forall closed rings -> outside_bbox P (all_vertices rings) -> wn P rings = 0%Z.
+Proof. exact wn_outside_bbox. Qed.
+Print Assumptions C02_wn_outside_bbox.
+
+(* every axis-aligned rectangle ring, any start vertex, both directions *)
+Theorem C02_wn_rectangle : forall r k ccw P, rect_ok r ->
+  (strictly_in r P -> wn_ring P (rect_ring r k ccw) = if ccw then 1%Z else (-1)%Z) /\
+  (strictly_out r P -> wn_ring P (rect_ring r k ccw) = 0%Z).
+Proof. exact wn_rectangle. Qed.
+Print Assumptions C02_wn_rectangle.
+
+(* the property's statement, proved for rectangles with rectangular holes wound
+   opposite: True strictly inside the shell and outside every hole; False
+   strictly outside the shell; False strictly inside a hole *)
+Theorem C02_polygon_rect_with_rect_holes : forall x y values offs shell ks ccw holes,
+  map ring_of (rings_of values offs) = rect_polygon shell ks ccw holes ->
+  rect_ok shell -> holes_ok holes ->
+  let P := (IZR x, IZR y) in
+  (strictly_in shell P -> out_of_all holes P ->
+     point_intersects_polygon x y values offs = true) /\
+  (strictly_out shell P -> out_of_all holes P ->
+     point_intersects_polygon x y values offs = false) /\
+  (forall h1 h h2, holes = h1 ++ h :: h2 -> strictly_in shell P -> strictly_in (fst h) P ->
+     out_of_all h1 P -> out_of_all h2 P ->
+     point_intersects_polygon x y values offs = false).
+Proof. exact polygon_rect_with_rect_holes. Qed.
+Print Assumptions C02_polygon_rect_with_rect_holes.
+
+(* PARTIAL.  For every ring list: the answer is "winding number <> 0" under the
+   declarative half-open rule, it is independent of the orientation convention,
+   and closed rings answer False strictly outside their bounding box.  Not a
+   theorem: "for a valid polygon, winding number <> 0 iff strictly inside the
+   shell and in no hole" (polygonal Jordan curve theorem); proved above for
+   rectangles with rectangular holes, validated for all enumerated simple
+   polygons by the correspondence run's exact oracle (harness/c02.py). *)
+Theorem C02_polygon_partial : forall x y values offs,
+  let rings := map ring_of (rings_of values offs) in
+  let P := (IZR x, IZR y) in
+  point_intersects_polygon x y values offs = negb (wn P rings =? 0)%Z /\
+  negb (wn P (map (@rev rpt) rings) =? 0)%Z = negb (wn P rings =? 0)%Z /\
+  (Forall closed rings -> outside_bbox P (all_vertices rings) ->
+     point_intersects_polygon x y values offs = false).
+Proof. exact polygon_partial. Qed.
+Print Assumptions C02_polygon_partial.
+
 (* ---- non-vacuity ---- *)
 
 (* collinear with the segment (0,0)-(2,2) but beyond its end *)
@@ -104,4 +187,28 @@ Example ex_missing :
                    (ShPolygon (BList (Build_listarr 0 1 None [[0; 10]%nat]
                       (map Some [-1; -1; 1; -1; 1; 1; -1; 1; -1; -1]%Z)))) None
   = Some (Value [false; true]).
+Proof. vm_compute; reflexivity. Qed.
+(* the hypothesis of C02_polygon_rect_with_rect_holes is satisfiable: a 4x4 square
+   (start vertex 1, clockwise) with a 1x1 hole (counter-clockwise) *)
+Example ex_rect_polygon :
+  map ring_of (rings_of [4; 0; 0; 0; 0; 4; 4; 4; 4; 0;  1; 1; 2; 1; 2; 2; 1; 2; 1; 1]%Z [0; 10; 20]%nat)
+  = rect_polygon {| xa := 0; yb := 0; xc := 4; yd := 4 |} 1 false
+                 [({| xa := 1; yb := 1; xc := 2; yd := 2 |}, 0%nat)].
+Proof. reflexivity. Qed.
+(* ray through the vertex (2,2) of the triangle (0,0),(4,0),(2,2): inside at height... the
+   point (1,1) lies on the edge; (2,1) is inside, its ray passes below the apex; (1,2) and
+   (-1,2) have the apex on their ray and are outside *)
+Example ex_ray_through_vertex :
+  map (fun p => point_intersects_polygon (fst p) (snd p) [0; 0; 4; 0; 2; 2; 0; 0]%Z [0; 8]%nat)
+      [(2, 1); (1, 2); (-1, 2); (3, 2); (-1, 0); (5, 0)]%Z
+  = [true; false; false; false; false; false].
+Proof. vm_compute; reflexivity. Qed.
+(* OUT OF SCOPE, recorded: a 0-level scalar (Line, MultiPoint) built *directly* from a
+   pyarrow scalar of a sliced array keeps listarray.offset <> 0, which buffer_values /
+   buffer_offsets ignore: the model (like the code) reads the buffer from its start.  Here
+   the line is (5,5)-(6,6)-(7,7) (offset 4, length 6) but (6,6) is not found.  The library
+   itself never builds scalars this way (__getitem__ goes through as_py). *)
+Example ex_line_from_arrow_scalar_offset_ignored :
+  point_intersects 6 6 (ShLine (BPlain 4 6 (map Some [0; 0; 1; 1; 5; 5; 6; 6; 7; 7]%Z)))
+  = Some (Value false).
 Proof. vm_compute; reflexivity. Qed.
